@@ -121,6 +121,46 @@ Theorem C17_selection_free_vourlaki : forall (theta S : R) xs1 gs1 xs2 gs2 w1 wn
                        + (pw * (1 - pc) + pw * pc * pcp))).
 Proof. exact selection_free_vourlaki. Qed.
 
+(** every component of Vourlaki_mixture takes the neutral / lethal tail masses of the grid its trapezoid runs over
+    ([vourlaki_q]: the quad oracle [Qd] is a function of the limits, the limits are derived from each cache's own grid):
+    linear in theta, and with selection having no effect the total weight is the stated weighted sum of the three total
+    quadrature weights, m5 with the tails of s1's grid, m4 and m7 with the tails of s2's grid *)
+Theorem C17_vourlaki_own_grid_tails_linear_in_theta : forall Qd (theta : R) s1 s2 w1 W2 sym t2 w2 ab pw gp pc pcp,
+  vourlaki_q Qd theta s1 s2 w1 W2 sym t2 w2 ab pw gp pc pcp
+  = oscale theta (vourlaki_q Qd 1 s1 s2 w1 W2 sym t2 w2 ab pw gp pc pcp).
+Proof. exact vourlaki_q_linear. Qed.
+
+Theorem C17_selection_free_vourlaki_own_grid_tails : forall Qd (theta S : R) xs1 gs1 xs2 gs2 w1 W2 sym t2 w2 ab pw gp pc pcp n1' n2' i1 i2,
+  length xs1 = n1' -> (0 < n1')%nat -> length w1 = n1' -> (n1' <= length gs1)%nat ->
+  length xs2 = n2' -> (0 < n2')%nat -> (n2' <= length gs2)%nat -> length W2 = n2' -> Forall (fun r => length r = n2') W2 ->
+  length (q1low t2) = n2' -> length (q1high t2) = n2' -> length (q2low t2) = n2' -> length (q2high t2) = n2' ->
+  length w2 = n2' -> pick2 gp gp gs2 = Some (i1, i2) ->
+  vourlaki_q Qd theta {| c1_xs := xs1; c1_gs := gs1; c1_sp := repeat S (length gs1); c1_neu := S |}
+             {| c2_xs := xs2; c2_gs := gs2; c2_S := repeat (repeat S (length gs2)) (length gs2) |}
+             w1 W2 sym t2 w2 ab pw gp pc pcp
+  = Some (theta * S * (total_weight1d xs1 w1 (Qd ab 0 (Some (0 - last xs1 0))) (Qd ab (0 - hd 0 xs1) None) * ((1 - pw) * (1 - pc))
+                       + total_weight2d sym xs2 W2 t2 * ((1 - pw) * pc * (1 - pcp))
+                       + total_weight1d xs2 w2 (Qd ab 0 (Some (0 - last xs2 0))) (Qd ab (0 - hd 0 xs2) None)
+                         * ((1 - pw) * pc * pcp + pw * pc * (1 - pcp))
+                       + (pw * (1 - pc) + pw * pc * pcp))).
+Proof. exact selection_free_vourlaki_q. Qed.
+Print Assumptions C17_selection_free_vourlaki_own_grid_tails.
+
+(** ... and tails taken from another grid move the selection-free result by
+    theta * S * (weight of the mixed-sign components) * (pdf mass between the bounds of the two grids) *)
+Theorem C17_vourlaki_foreign_tails_drop_the_mass_between_the_grids :
+  forall (theta S : R) xs1 gs1 xs2 gs2 w1 wneu1 wdel1 W2 sym t2 w2 wneu2 wdel2 wneu' wdel' pw gp pc pcp n1' n2' i1 i2 r r',
+  length xs1 = n1' -> (0 < n1')%nat -> length w1 = n1' -> (n1' <= length gs1)%nat ->
+  length xs2 = n2' -> (0 < n2')%nat -> (n2' <= length gs2)%nat -> length W2 = n2' -> Forall (fun r => length r = n2') W2 ->
+  length (q1low t2) = n2' -> length (q1high t2) = n2' -> length (q2low t2) = n2' -> length (q2high t2) = n2' ->
+  length w2 = n2' -> pick2 gp gp gs2 = Some (i1, i2) ->
+  let s1 := {| c1_xs := xs1; c1_gs := gs1; c1_sp := repeat S (length gs1); c1_neu := S |} in
+  let s2 := {| c2_xs := xs2; c2_gs := gs2; c2_S := repeat (repeat S (length gs2)) (length gs2) |} in
+  vourlaki theta s1 s2 w1 wneu1 wdel1 W2 sym t2 w2 wneu2 wdel2 pw gp pc pcp = Some r ->
+  vourlaki theta s1 s2 w1 wneu1 wdel1 W2 sym t2 w2 wneu' wdel' pw gp pc pcp = Some r' ->
+  r' - r = theta * S * ((1 - pw) * pc * pcp + pw * pc * (1 - pcp)) * ((wneu' - wneu2) + (wdel' - wdel2)).
+Proof. exact vourlaki_foreign_tails. Qed.
+
 (** * weights *)
 Theorem C17_quadrant_weights_sum_to_one : forall rho p1 p2 sq : R,
   p_pos_pos rho p1 p2 sq + p_pos_neg rho p1 p2 + p_neg_pos rho p1 p2 + p_neg_neg rho p1 p2 sq = 1.
@@ -276,4 +316,15 @@ Proof.
   split.
   - exact (selection_free_1d 2 5 [-2; -1] [1; 3] (1 / 2) (1 / 4) 2 eq_refl (Nat.lt_0_succ 1)).
   - unfold total_weight1d. rewrite trapz_cons2, trapz_single_l. numR. lra.
+Qed.
+
+(** two caches with different ranges (1-D grid [-4;-1], 2-D grid [-2;-1/2]; a quad oracle that is the length of the
+    region, capped at 8): the tails of the two grids differ, and so does the result when m4/m7 take the 1-D grid's tails *)
+Example C17_nonvacuous_own_grid_tails :
+  let Qd := fun (_ : list R) (lo : R) (hi : option R) => match hi with Some h => h - lo | None => 8 - lo end in
+  tails_on Qd [] [-4; -1] = (1 - 0, 8 - 4) /\ tails_on Qd [] [-2; -(1/2)] = (1/2 - 0, 8 - 2) /\
+  fst (tails_on Qd [] [-4; -1]) + snd (tails_on Qd [] [-4; -1]) <> fst (tails_on Qd [] [-2; -(1/2)]) + snd (tails_on Qd [] [-2; -(1/2)]).
+Proof.
+  cbv zeta. unfold tails_on, neu_hi, del_lo. cbn [last hd fst snd]. numR.
+  repeat split; try (f_equal; lra).
 Qed.
